@@ -157,6 +157,22 @@ def gen_pool(rng):
         r = gen.region_from_tokens(c, gen.draw_tokens(rng, c, small=True))
         del r['params']['angle']          # the constructor's default angle
         add('skyreg' if 'Sky' in c else 'pixreg', r)
+    # regions whose numbers are not float64: integer / float32 vertex
+    # arrays, integer centres and sizes (as in the package's own docs)
+    add('pixreg', {'t': 'region', 'cls': 'PolygonPixelRegion', 'params': {
+        'vertices': {'t': 'pix',
+                     'x': {'t': 'arr', 'v': [1, 5, 3], 'dtype': 'int64'},
+                     'y': {'t': 'arr', 'v': [1, 1, 6], 'dtype': 'int64'}}},
+        'meta': {'t': 'meta', 'v': gen.meta_items(rng)}})
+    add('pixreg', {'t': 'region', 'cls': 'PolygonPixelRegion', 'params': {
+        'vertices': {'t': 'pix',
+                     'x': {'t': 'arr', 'v': [2.5, 9, 12, 6], 'dtype': 'float32'},
+                     'y': {'t': 'arr', 'v': [1, 2, 8.5, 12], 'dtype': 'float32'}}}})
+    add('pixreg', {'t': 'region', 'cls': 'CirclePixelRegion', 'params': {
+        'center': {'t': 'pix', 'x': 7, 'y': 9}, 'radius': 4}})
+    add('pixreg', {'t': 'region', 'cls': 'RectanglePixelRegion', 'params': {
+        'center': {'t': 'pix', 'x': 12, 'y': 8}, 'width': 6, 'height': 3,
+        'angle': {'t': 'q', 'v': 30, 'u': 'deg'}}})
     add('pixcomp', gen.compound_region(rng, sky=False, depth=1))
     add('pixcomp', _annulus_like(rng))
     add('skycomp', gen.compound_region(rng, sky=True, depth=1))
